@@ -335,7 +335,8 @@ hp_initials(void)
 }
 
 /* =====================  timer queue  ===================== */
-static const struct timeval TIMES[4] = {{0, 0}, {0, 5}, {1, 0}, {1, 5}};
+/* the third time is more than 2^31 seconds after the others: comparisons must not be done in int */
+static const struct timeval TIMES[4] = {{0, 0}, {0, 5}, {2147483748L, 0}, {1, 0}};
 struct tent { int t; void * handle; int alive; };
 static struct tent tpool[2 * MAXN + 4]; static int ntpool;
 
